@@ -16,6 +16,8 @@ for d in harmless/*/; do
   # only the checks whose verified modules / bounded stand-ins can see the files the patch touches (ALL=1: every check)
   REL=$(python3 tools/relevant_props.py $d/patch.diff)
   [ -n "$ALL" ] && REL="C01 C02 C03 C04 C05 C06 C07 C08 C10 C11 C12 C13 C14 C15 C16 C17"
+  # C16 (four feature sets, by far the longest check) only for the refactorings named in C16_FOR, when that is set
+  if [ -n "$C16_FOR" ]; then case " $C16_FOR " in *" $n "*) ;; *) REL=$(echo $REL | sed 's/ *C16//');; esac; fi
   for q in $REL; do
     VERIF_REPO_SRC=$D/embedded-cli/src bin/check $q 2>/dev/null > $D/out-$q.txt &
     while [ $(jobs -r | wc -l) -ge 6 ]; do sleep 2; done
